@@ -63,6 +63,9 @@ UNS = {
     "VIEW": "CREATE VIEW v1 AS SELECT a FROM t1;", "FUNC": "CREATE FUNCTION f() RETURNS int AS 'select 1' LANGUAGE sql;",
     "USE": "USE db1;", "GO": "GO", "COMMIT": "COMMIT;", "DEL": "DELETE FROM t1;", "UPD": "UPDATE t1 SET a = 2;",
     "TRUNC": "TRUNCATE TABLE t1;", "COMM": "COMMENT ON TABLE t1 IS 'x';", "DROPI": "DROP INDEX i1;", "ALTSEQ": "ALTER SEQUENCE q RESTART;",
+    # unsupported ALTER TABLE forms of mysqldump / pg_dump that share a prefix with supported ones
+    "ALTCS": "ALTER TABLE a1 DEFAULT CHARACTER SET utf8mb4 COLLATE utf8mb4_bin;", "ALTOWN": "ALTER TABLE a1 OWNER TO joe;",
+    "ALTDIS": "ALTER TABLE a1 DISABLE TRIGGER ALL;",
     "CALL": "CALL p(1);", "MERGE": "MERGE INTO t USING s ON t.a = s.a WHEN MATCHED THEN UPDATE SET b = 1;",
     # carrier-poisoning statements: each ends with one hidden carrier in a non-default state
     "P_LP": "SELECT (a FROM t;", "P_LT": "SELECT a FROM t WHERE a < 5;", "P_GT": "SELECT a FROM t WHERE a > 5;",
